@@ -3,7 +3,7 @@
 1. TLC, exhaustive: spec/Baggage.tla (strings = runs over the character classes token/blank/reserved/other
    printable/non-printable; ToHeader/FromHeader transcribe the contract over header tokens lit/enc/raw/bad):
    RoundTrip(FromHeader(ToHeader(b)) = b) for every single entry with key <= 2, value <= 2 (thorough 3)
-   characters and every pair of one-character entries; Set/Delete/round-trip histories (NoDupKeys, SetReplaces,
+   characters and every pair of one-character entries; Set/Delete/round-trip histories of <= 2 (thorough 3) operations (NoDupKeys, SetReplaces,
    DeleteRemoves, HeaderClean, OriginalUntouched); the extraction family (member classes alone and between
    valid members, limits 180 / 4096 / 8192 below-at-above): ExtractValid.  spec/Composite.tla: every ordered
    subset of {tc, bag, b3, b3m, jg} x every carrier/context shape: LastValidWins, EveryPartWrote, ...
@@ -69,23 +69,29 @@ def baggage_runs(ctx):
     P = "PROPERTY OriginalUntouched\n"
     # --- histories -----------------------------------------------------------------------------
     # (the exhaustive depth-3 run is independent of everything else: it runs beside the generation runs)
-    c3 = _cfg(ctx, "ops3.cfg", False, "ops", 3, thorough, 1, INVS, P)
-    pool = cf.ThreadPoolExecutor(max_workers=1)
-    f3 = pool.submit(tlc.tlc, "Baggage", c3, rundir=ctx.rundir.path, workers=4, timeout_s=900 if thorough else 160,
-                     coverage=True, tag="ops3")
+    pool, f3 = None, None
+    if thorough:
+        c3 = _cfg(ctx, "ops3.cfg", False, "ops", 3, True, 1, INVS, P)
+        pool = cf.ThreadPoolExecutor(max_workers=1)
+        f3 = pool.submit(tlc.tlc, "Baggage", c3, rundir=ctx.rundir.path, workers=4, timeout_s=900, coverage=True, tag="ops3")
     c = _cfg(ctx, "ops2.cfg", True, "ops", 2, True, 1, INVS + " EmitAll", P)
-    r = tlc.tlc("Baggage", c, rundir=ctx.rundir.path, workers=1, timeout_s=300, coverage=True, tag="ops2")
-    ctx.add_tlc("Baggage histories: all behaviours of 2 operations on any object (checked + exported)", r)
+    r = tlc.tlc("Baggage", c, rundir=ctx.rundir.path, workers=1, timeout_s=300, tag="ops2")
+    ctx.add_tlc("Baggage histories: all behaviours of 2 operations on any object, 6 keys x 8 values (checked + exported)", r)
     tlc.must_ok(r, "Baggage history generation")
-    for a in OPS_ACTIONS:
-        if r.coverage.get(a, (0, 0))[0] == 0:
-            raise Broken("vacuity: action %s never taken in the Baggage depth-2 configuration" % a)
     b = _uniq(r, "ops2")
     counts["ops2"] = len(b)
     behs += b
+    opcount = {}
+    for x in b:
+        for st in x["steps"]:
+            opcount[st["op"]] = opcount.get(st["op"], 0) + 1
+    ctx.extra["ops2_step_counts"] = opcount
+    for a in ("set", "del", "setbad", "rt"):
+        if not opcount.get(a):
+            raise Broken("vacuity: no %s step in the exhaustive depth-2 Baggage behaviours" % a)
     c = _cfg(ctx, "opss.cfg", True, "ops", 5, True, 1, INVS + " EmitAll")
     r = tlc.tlc("Baggage", c, rundir=ctx.rundir.path, workers=1, timeout_s=300,
-                simulate={"num": 150 if thorough else 30, "depth": 7}, seed=ctx.seed + 15, tag="opssim")
+                simulate={"num": 150 if thorough else 20, "depth": 7}, seed=ctx.seed + 15, tag="opssim")
     if r.status != "ok":
         raise Broken("Baggage history simulation failed: %s\n%s" % (r.status, r.out[-1500:]))
     b = _uniq(r, "opssim")
@@ -123,23 +129,24 @@ def baggage_runs(ctx):
         raise Broken("vacuity: extraction family lacks deviation / alternative / untouched-context cases")
     c = _cfg(ctx, "mix.cfg", True, "mix", 5, True, 1, "ExtractValid EmitMix")
     r = tlc.tlc("Baggage", c, rundir=ctx.rundir.path, workers=1, timeout_s=600,
-                simulate={"num": 60 if thorough else 12, "depth": 7}, seed=ctx.seed + 16, tag="mix")
+                simulate={"num": 60 if thorough else 8, "depth": 7}, seed=ctx.seed + 16, tag="mix")
     if r.status != "ok":
         raise Broken("Baggage mix simulation failed: %s\n%s" % (r.status, r.out[-1500:]))
     b = _uniq(r, "mix")
     counts["mix"] = len(b)
     behs += b
     ctx.extra["behaviours_generated"] = counts
-    r = f3.result()
-    pool.shutdown()
-    ctx.add_tlc("Baggage histories: <= 3 operations (%s), 6 keys x 8 values" % ("on any object" if thorough else "on the newest object"), r)
-    if r.status != "timeout":
-        tlc.must_ok(r, "Baggage history model checking")
-        for a in OPS_ACTIONS:
-            if r.coverage.get(a, (0, 0))[0] == 0:
-                raise Broken("vacuity: action %s never taken in the Baggage history configuration" % a)
-    else:
-        log("Baggage depth-3 model checking timed out (bounded; reported as not exhaustive)")
+    if f3 is not None:
+        r = f3.result()
+        pool.shutdown()
+        ctx.add_tlc("Baggage histories: <= 3 operations on any object, 6 keys x 8 values", r)
+        if r.status != "timeout":
+            tlc.must_ok(r, "Baggage history model checking")
+            for a in OPS_ACTIONS:
+                if r.coverage.get(a, (0, 0))[0] == 0:
+                    raise Broken("vacuity: action %s never taken in the Baggage history configuration" % a)
+        else:
+            log("Baggage depth-3 model checking timed out (bounded; reported as not exhaustive)")
     return behs
 
 
@@ -245,7 +252,7 @@ def validate_lines(ctx, lines, tag="tv"):
 
 def record_and_validate(ctx, exe):
     thorough = ctx.tier == "thorough"
-    nexec, length = (400, 150) if thorough else (120, 100)
+    nexec, length = (400, 150) if thorough else (60, 80)
     nproc = 4
     per = nexec // nproc
     with cf.ThreadPoolExecutor(max_workers=nproc) as ex:
